@@ -2,7 +2,9 @@
 with each other.  Recorded per scenario (all from arrays the code returned, in exact rational arithmetic):
     lhs = v^T A u                (A = BilinearForm(F).assemble(ubasis, vbasis))
     rhs = Functional(F(interpolate(u), interpolate(v))).assemble(ubasis)
-    mag = |v|^T |A| |u| + Functional(|F(interpolate(u), interpolate(v))|)        (magnitude of the sums)
+    mag = |v|^T |A| |u| + Functional(|F(interpolate(u), interpolate(v))|) + the integrand evaluated on leaf
+          magnitudes taken over all components of each field (fem.term_magnitude: single components of a mapped
+          basis function can be pure round-off)                                  (group scale of the comparison)
 and the analogous triple for LinearForm.  The three numbers are brought to a common power-of-two unit (mag in
 [2^10, 2^11)) and written as Fx limbs; TraceC01.ConsistentLaw decides |lhs - rhs| <= TolSum * (floor(mag) + 1).
 The integrands come from the same grammar as in the exact tier, over all components the element offers
@@ -112,26 +114,32 @@ def exec_law(rec):
         fcall = fem.functional_callable(F, accs, 'uh', 'vh')
         fun = Functional(fcall)
         fabs = Functional(lambda w: np.abs(fcall(w)))
+        Fm = {n: fem.field_magnitudes(defaults[n], ('value',)) for n in defaults}
+        if 'c' in kw:
+            Fm['c'] = fem.field_magnitudes(kw['c'], ALL)
         for (u, v) in rec['pairs']:
             u, v = np.array(u, dtype=np.float64), np.array(v, dtype=np.float64)
             uh, vh = bu.interpolate(u), bv.interpolate(v)
             s = fun.assemble(bu, uh=uh, vh=vh, **dict(kw), **prm)
             sa = fabs.assemble(bu, uh=uh, vh=vh, **dict(kw), **prm)
             lhs, m1 = fem.frac_pairing(A, v, u)
-            laws.append(('bil', lhs, Fraction(float(s)), m1 + Fraction(float(sa))))
+            floor = fem.term_magnitude(F, fem.leaf_magnitudes(bu, u, ALL), fem.leaf_magnitudes(bv, v, ALL), Fm, prm, accs, bu.dx)
+            laws.append(('bil', lhs, Fraction(float(s)), m1 + Fraction(float(sa)) + floor))
         Fl = rec['lin']
         dv = bv.default_parameters()
         faccv = {n: fem.accessors(dv[n], ('value',)) for n in dv}
         accl = {'v': acc_v, 'f': faccv}
         b = LinearForm(fem.linear_callable(Fl, accl)).assemble(bv, **prm)
         lcall = fem.functional_callable(Fl, accl, None, 'vh')
+        Fmv = {n: fem.field_magnitudes(dv[n], ('value',)) for n in dv}
         for v in rec['lpairs']:
             v = np.array(v, dtype=np.float64)
             vh = bv.interpolate(v)
             s = Functional(lcall).assemble(bv, vh=vh, **prm)
             sa = Functional(lambda w: np.abs(lcall(w))).assemble(bv, vh=vh, **prm)
             lhs, m1 = fem.frac_dot(b, v)
-            laws.append(('lin', lhs, Fraction(float(s)), m1 + Fraction(float(sa))))
+            floor = fem.term_magnitude(Fl, None, fem.leaf_magnitudes(bv, v, ALL), Fmv, prm, accl, bv.dx)
+            laws.append(('lin', lhs, Fraction(float(s)), m1 + Fraction(float(sa)) + floor))
         return laws
     laws, err = guarded(run, 120)
     ev = {'a': 'Law', 'err': err, 'laws': []}
